@@ -660,6 +660,8 @@ type oracle struct {
 	got      int
 	prefix   int // number of blocks the local traversal loads before the first miss
 	termSeen bool
+	// the responder is the real one (component exchange): cooperative by construction
+	realResponder bool
 }
 
 type expItem struct {
@@ -915,6 +917,9 @@ func (o *oracle) finish(s *Sys) {
 	if !o.hasRem {
 		return
 	}
+	if o.realResponder {
+		o.termSeen = true
+	}
 	if !o.honest || (!covered && !o.termSeen) {
 		if o.honest {
 			o.why = "stream incomplete"
@@ -932,8 +937,18 @@ func (o *oracle) finish(s *Sys) {
 	if lacksPref && !covered {
 		o.out.Cov("honest.lacks-prefix")
 	}
+	// known-finding input classes, decided from the case alone (not from what went wrong):
+	//   root-not-found-abort : the responder lacks the root block, which the requestor holds
+	//   skip-prefix-mismatch : the responder holds the root but lacks another block of the prefix
+	//                          the requestor loaded locally before it went to the network
 	cls := func(c string) string {
-		if lacksPref && !covered {
+		if covered || o.prefix == 0 {
+			return c
+		}
+		if !o.rem[w.LT.Loads[0].Block] {
+			return "root-not-found-abort"
+		}
+		if lacksPref {
 			return "skip-prefix-mismatch"
 		}
 		return c
@@ -972,7 +987,15 @@ func (o *oracle) finish(s *Sys) {
 	rootUnavailable := len(wantMissing) == 1 && wantMissing[0] == "-"
 	for _, e := range o.errs {
 		n := w.errName(e)
+		if rootUnavailable && n == "status:34" && len(gotMissing) == 0 {
+			// "content not found" for the root is the missing-block report for the root
+			gotMissing = append(gotMissing, "-")
+			continue
+		}
 		if strings.HasPrefix(n, "missing:") {
+			if rootUnavailable && len(gotMissing) == 1 && gotMissing[0] == "-" {
+				continue
+			}
 			f := strings.Split(n, ":")
 			gotMissing = append(gotMissing, f[2])
 		} else if strings.HasPrefix(n, "incorrect") || n == "extra" || !rootUnavailable {
